@@ -1,5 +1,5 @@
 // SonicKZG10::check_combinations (sonic_pc/mod.rs): the linear-combination verifier of the Sonic scheme  (C06)
-//@use core ops_gen poly labeled_comm sponge std
+//@use core ops_gen poly labeled labeled_comm sponge std
 //@spec ring
 //@typemap /::<E, P>::/ => ::
 //@typemap /<E>/ =>
@@ -93,6 +93,120 @@ pub proof fn lemma_srun_none(m: Map<&String, &LabeledCommitment<Commitment>>, lc
     ensures srun(m, lcs, n) is None
     decreases n
 { if k < n { lemma_srun_none(m, lcs, k, (n - 1) as nat); } }
+// ---- prover side: the scheme's commitment state (randomness) and batch_open, abstract ----
+#[verifier::external_body] pub struct CK { _x: u8 }
+#[verifier::external_body] pub struct St { _x: u8 }
+pub uninterp spec fn st_empty() -> St;                          // PC::CommitmentState::empty()
+pub uninterp spec fn st_axpy(acc: St, c: FS, s: St) -> St;      // acc += (c, &s)
+impl St {
+    #[verifier::external_body] pub fn empty() -> (r: St) ensures r == st_empty() { unimplemented!() }
+    #[verifier::external_body] pub fn add_assign_scaled(&mut self, q: (Fr, &St)) ensures *final(self) == st_axpy(*old(self), q.0@, *q.1) { unimplemented!() }
+}
+#[verifier::external_body] pub fn opt_usize_max(a: Option<usize>, b: Option<usize>) -> (r: Option<usize>)     // core::cmp::max on Option<usize>: Some(_) > None
+    ensures r == omax(a, b) { unimplemented!() }
+pub open spec fn omax(a: Option<usize>, b: Option<usize>) -> Option<usize> { match (a, b) { (None, _) => b, (_, None) => a, (Some(x), Some(y)) => if x >= y { a } else { b } } }
+pub uninterp spec fn bo_res(ck: &CK, ps: Seq<LabeledPolynomial>, cs: Seq<(String, FS, Option<usize>)>, qs: Set<(String, (String, Pt))>, sts: Seq<St>, s: SS, rng: Option<(int, nat)>) -> Result<BatchProof, Error>;
+pub uninterp spec fn bo_sponge(ck: &CK, ps: Seq<LabeledPolynomial>, cs: Seq<(String, FS, Option<usize>)>, qs: Set<(String, (String, Pt))>, sts: Seq<St>, s: SS, rng: Option<(int, nat)>) -> SS;
+pub open spec fn rng_in(r: Option<&mut Rng>) -> Option<(int, nat)> { match r { Some(g) => Some((g.id@, g.pos@)), None => None } }
+#[verifier::external_body]
+pub fn pc_batch_open(ck: &CK, polys: &Vec<LabeledPolynomial>, comms: &Vec<LabeledCommitment<Commitment>>, query_set: &BTreeSet<(String, (String, Pt))>, sponge: &mut Sponge, states: &Vec<St>, rng: Option<&mut Rng>) -> (res: Result<BatchProof, Error>)
+    ensures res == bo_res(ck, polys@, lcvs(comms@), query_set@, states@, old(sponge).st@, rng_in(rng)),
+        final(sponge).st@ == bo_sponge(ck, polys@, lcvs(comms@), query_set@, states@, old(sponge).st@, rng_in(rng)) { unimplemented!() }
+#[verifier::external_body] pub fn tmap_get<'b, 'a>(m: &'b BTreeMap<&'a String, (&'a LabeledPolynomial, &'a St, &'a LabeledCommitment<Comm>)>, k: &String) -> (r: Option<&'b (&'a LabeledPolynomial, &'a St, &'a LabeledCommitment<Comm>)>)
+    ensures (r is Some) == m@.dom().contains(k), r is Some ==> *r->Some_0 == m@[k] { unimplemented!() }
+// polynomial / state / commitment triples by label: the last one wins
+pub open spec fn t_is_last(ps: Seq<&LabeledPolynomial>, i: int) -> bool { 0 <= i < ps.len() && forall|j: int| i < j < ps.len() ==> (#[trigger] ps[j]).label != ps[i].label }
+pub open spec fn tmap_ok(m: Map<&String, (&LabeledPolynomial, &St, &LabeledCommitment<Comm>)>, ps: Seq<&LabeledPolynomial>, sts: Seq<&St>, cs: Seq<&LabeledCommitment<Comm>>) -> bool {
+    let n = min(min(ps.len(), sts.len()), cs.len());
+    (forall|k: &String| m.dom().contains(k) == (exists|i: int| 0 <= i < n && (#[trigger] ps[i]).label == *k))
+    && (forall|i: int| #[trigger] t_is_last(ps.subrange(0, n as int), i) ==> m[&ps[i].label] == (ps[i], sts[i], cs[i]))
+}
+// prover-side scan of the polynomial terms of one combination (first k terms): value of sum_i c_i p_i at x, the combined state, the combined commitment, the kept degree bound (decided on the POLYNOMIAL's bound) and the largest hiding bound
+pub open spec fn p_ok(m: Map<&String, (&LabeledPolynomial, &St, &LabeledCommitment<Comm>)>, ts: Seq<(Fr, LCTerm)>, k: nat) -> bool decreases k {
+    if k == 0 { true } else { p_ok(m, ts, (k - 1) as nat) && match ts[k - 1].1 {
+        LCTerm::One => true,
+        LCTerm::PolyLabel(l) => m.dom().contains(&l) && (m[&l].0.degree_bound is Some ==> ts.len() == 1 && ts[k - 1].0@ == f_one()),
+    } }
+}
+pub open spec fn p_ev(m: Map<&String, (&LabeledPolynomial, &St, &LabeledCommitment<Comm>)>, ts: Seq<(Fr, LCTerm)>, k: nat, x: FS) -> FS decreases k {
+    if k == 0 { f_zero() } else { match ts[k - 1].1 { LCTerm::One => p_ev(m, ts, (k - 1) as nat, x), LCTerm::PolyLabel(l) => f_add(p_ev(m, ts, (k - 1) as nat, x), f_mul(ts[k - 1].0@, m[&l].0.polynomial.ev(x))) } }
+}
+pub open spec fn p_st(m: Map<&String, (&LabeledPolynomial, &St, &LabeledCommitment<Comm>)>, ts: Seq<(Fr, LCTerm)>, k: nat) -> St decreases k {
+    if k == 0 { st_empty() } else { match ts[k - 1].1 { LCTerm::One => p_st(m, ts, (k - 1) as nat), LCTerm::PolyLabel(l) => st_axpy(p_st(m, ts, (k - 1) as nat), ts[k - 1].0@, *m[&l].1) } }
+}
+pub open spec fn p_cm(m: Map<&String, (&LabeledPolynomial, &St, &LabeledCommitment<Comm>)>, ts: Seq<(Fr, LCTerm)>, k: nat) -> FS decreases k {
+    if k == 0 { f_zero() } else { match ts[k - 1].1 { LCTerm::One => p_cm(m, ts, (k - 1) as nat),
+        LCTerm::PolyLabel(l) => f_add(p_cm(m, ts, (k - 1) as nat), f_mul(m[&l].2.commitment.0@, ts[k - 1].0@)) } }
+}
+pub open spec fn p_db(m: Map<&String, (&LabeledPolynomial, &St, &LabeledCommitment<Comm>)>, ts: Seq<(Fr, LCTerm)>, k: nat) -> Option<usize> decreases k {
+    if k == 0 { None } else { match ts[k - 1].1 { LCTerm::One => p_db(m, ts, (k - 1) as nat), LCTerm::PolyLabel(l) => if m[&l].0.degree_bound is Some { m[&l].0.degree_bound } else { p_db(m, ts, (k - 1) as nat) } } }
+}
+pub open spec fn p_hb(m: Map<&String, (&LabeledPolynomial, &St, &LabeledCommitment<Comm>)>, ts: Seq<(Fr, LCTerm)>, k: nat) -> Option<usize> decreases k {
+    if k == 0 { None } else { match ts[k - 1].1 { LCTerm::One => p_hb(m, ts, (k - 1) as nat), LCTerm::PolyLabel(l) => omax(p_hb(m, ts, (k - 1) as nat), m[&l].0.hiding_bound) } }
+}
+pub open spec fn p_all_ok(m: Map<&String, (&LabeledPolynomial, &St, &LabeledCommitment<Comm>)>, lcs: Seq<&LinearCombination>, n: nat) -> bool decreases n {
+    if n == 0 { true } else { p_all_ok(m, lcs, (n - 1) as nat) && p_ok(m, lcs[n - 1].terms@, lcs[n - 1].terms@.len()) }
+}
+// what is handed to the scheme's batch_open for combination i
+pub open spec fn lc_opened(m: Map<&String, (&LabeledPolynomial, &St, &LabeledCommitment<Comm>)>, lc: &LinearCombination, p: LabeledPolynomial, st: St, c: (String, FS, Option<usize>)) -> bool {
+    let ts = lc.terms@; let n = ts.len();
+    p.label == lc.label && (forall|x: FS| #[trigger] p.polynomial.ev(x) == p_ev(m, ts, n, x)) && p.degree_bound == p_db(m, ts, n) && p.hiding_bound == p_hb(m, ts, n)
+    && st == p_st(m, ts, n)
+    && c == (lc.label, p_cm(m, ts, n), p_db(m, ts, n))
+}
+pub open spec fn soc_post(ck: &CK, lcs: Seq<&LinearCombination>, ps: Seq<&LabeledPolynomial>, cs: Seq<&LabeledCommitment<Commitment>>, qs: Set<(String, (String, Pt))>, sts: Seq<&St>, s0: SS, rng: Option<(int, nat)>, res: Result<BatchLCProof, Error>, s1: SS) -> bool {
+    exists|m: Map<&String, (&LabeledPolynomial, &St, &LabeledCommitment<Comm>)>| #![trigger tmap_ok(m, ps, sts, cs)] tmap_ok(m, ps, sts, cs) && (
+        if !p_all_ok(m, lcs, lcs.len()) { res is Err } else {
+            exists|lps: Seq<LabeledPolynomial>, lsts: Seq<St>, lcms: Seq<(String, FS, Option<usize>)>| #![trigger bo_res(ck, lps, lcms, qs, lsts, s0, rng)]
+                lps.len() == lcs.len() && lsts.len() == lcs.len() && lcms.len() == lcs.len()
+                && (forall|i: int| 0 <= i < lcs.len() ==> lc_opened(m, #[trigger] lcs[i], lps[i], lsts[i], lcms[i]))
+                && s1 == bo_sponge(ck, lps, lcms, qs, lsts, s0, rng)
+                && match bo_res(ck, lps, lcms, qs, lsts, s0, rng) { Err(_) => res is Err, Ok(bp) => res is Ok && res->Ok_0.proof == bp && res->Ok_0.evals is None }
+        })
+}
+pub proof fn lemma_p_ok_false(m: Map<&String, (&LabeledPolynomial, &St, &LabeledCommitment<Comm>)>, ts: Seq<(Fr, LCTerm)>, k: nat, n: nat)
+    requires k <= n, !p_ok(m, ts, k)
+    ensures !p_ok(m, ts, n)
+    decreases n
+{ if k < n { lemma_p_ok_false(m, ts, k, (n - 1) as nat); } }
+pub proof fn lemma_p_all_false(m: Map<&String, (&LabeledPolynomial, &St, &LabeledCommitment<Comm>)>, lcs: Seq<&LinearCombination>, k: nat, n: nat)
+    requires k <= n, !p_all_ok(m, lcs, k)
+    ensures !p_all_ok(m, lcs, n)
+    decreases n
+{ if k < n { lemma_p_all_false(m, lcs, k, (n - 1) as nat); } }
+//@lemma props=C06
+// C06, Sonic, lock-step of prover and verifier: when both sides hold the same commitments under the same labels and the polynomials
+// carry the degree bounds their commitments are labelled with, the commitments check_combinations forms are exactly the ones
+// open_combinations handed to batch_open together with sum_i c_i p_i and sum_i c_i r_i - and whatever the prover accepts, the verifier does not refuse
+pub open spec fn maps_agree(tm: Map<&String, (&LabeledPolynomial, &St, &LabeledCommitment<Comm>)>, m: Map<&String, &LabeledCommitment<Commitment>>) -> bool {
+    (forall|k: &String| tm.dom().contains(k) == m.dom().contains(k))
+    && (forall|k: &String| #[trigger] tm.dom().contains(k) ==> tm[k].2 == m[k] && tm[k].0.degree_bound == m[k].degree_bound)
+}
+pub proof fn lemma_sscan_lockstep(tm: Map<&String, (&LabeledPolynomial, &St, &LabeledCommitment<Comm>)>, m: Map<&String, &LabeledCommitment<Commitment>>, ts: Seq<(Fr, LCTerm)>, k: nat)
+    requires maps_agree(tm, m), p_ok(tm, ts, k), k <= ts.len()
+    ensures sscan(m, ts, k) == Some((p_cm(tm, ts, k), p_db(tm, ts, k)))
+    decreases k
+{
+    if k > 0 {
+        lemma_sscan_lockstep(tm, m, ts, (k - 1) as nat);
+        match ts[k - 1].1 { LCTerm::One => {}, LCTerm::PolyLabel(l) => { assert(tm.dom().contains(&l)); } }
+    }
+}
+pub proof fn lemma_sonic_lc_lockstep(tm: Map<&String, (&LabeledPolynomial, &St, &LabeledCommitment<Comm>)>, m: Map<&String, &LabeledCommitment<Commitment>>, lcs: Seq<&LinearCombination>, n: nat)
+    requires maps_agree(tm, m), p_all_ok(tm, lcs, n), n <= lcs.len()
+    ensures
+        srun(m, lcs, n) is Some, srun(m, lcs, n)->Some_0.len() == n,      // name=sonic.combinations.verifier_does_not_refuse_what_the_prover_opened props=C06
+        forall|i: int| 0 <= i < n ==> (#[trigger] srun(m, lcs, n)->Some_0[i]) == ({ let ts = lcs[i].terms@; (lcs[i].label, p_cm(tm, ts, ts.len()), p_db(tm, ts, ts.len())) }),   // name=sonic.combinations.verifier_forms_the_commitments_the_prover_opened props=C06
+    decreases n
+{
+    if n > 0 {
+        lemma_sonic_lc_lockstep(tm, m, lcs, (n - 1) as nat);
+        let ts = lcs[n - 1].terms@;
+        lemma_sscan_lockstep(tm, m, ts, ts.len());
+        let prev = srun(m, lcs, (n - 1) as nat)->Some_0;
+        assert forall|i: int| 0 <= i < n implies (#[trigger] srun(m, lcs, n)->Some_0[i]) == ({ let ts = lcs[i].terms@; (lcs[i].label, p_cm(tm, ts, ts.len()), p_db(tm, ts, ts.len())) }) by { if i < n - 1 { assert(srun(m, lcs, n)->Some_0[i] == prev[i]); } }
+    }
+}
 pub struct SonicKZG10;
 impl SonicKZG10 {
 //@fn id=sonic.check_combinations file=poly-commit/src/sonic_pc/mod.rs scope="impl<E, P> PolynomialCommitment<E::ScalarField, P> for SonicKZG10<E, P>" name=check_combinations props=C06,C05,C04,C17
@@ -230,6 +344,112 @@ impl SonicKZG10 {
             let out = outs(lc_info0, lc_comms0);
             assert(lcvs(lc_commitments@) =~= out);
             assert(evaluations@ =~= adj_ev(ev0, lcs0, n));
+        }
+//@end
+//@fn id=sonic.open_combinations file=poly-commit/src/sonic_pc/mod.rs scope="impl<E, P> PolynomialCommitment<E::ScalarField, P> for SonicKZG10<E, P>" name=open_combinations props=C06,C04,C17
+    #[verifier::loop_isolation(false)]
+    fn open_combinations<'a>(ck: &CK, linear_combinations: Vec<&'a LinearCombination>, polynomials: Vec<&'a LabeledPolynomial>, commitments: Vec<&'a LabeledCommitment<Commitment>>, query_set: &BTreeSet<(String, (String, Pt))>, sponge: &mut Sponge, states: Vec<&'a St>, rng: Option<&mut Rng>) -> (res: Result<BatchLCProof, Error>)
+    ensures
+        // for every combination the polynomial sum_i c_i p_i (constants left out: the verifier moves them to the claimed values), the
+        // state sum_i c_i r_i and the commitment sum_i c_i C_i (with the kept bound) are handed to the scheme's
+        // batch_open; a combination naming an unknown polynomial or mixing a degree-bounded polynomial with other terms is refused
+        soc_post(ck, linear_combinations@, polynomials@, commitments@, query_set@, states@, old(sponge).st@, rng_in(rng), res, final(sponge).st@),   // name=sonic.open_combinations.batch_opening_of_the_combined_polynomials props=C06,C04,C17
+//@body
+//@rw 1 /(?s)let label_map = (polynomials\s*\.into_iter\(\).*?)\s*\.collect::<BTreeMap<_, _>>\(\);/ => let tv__: Vec<(&String, (&LabeledPolynomial, &St, &LabeledCommitment<Comm>))> = \1.collect();
+        let label_map: BTreeMap<&String, (&LabeledPolynomial, &St, &LabeledCommitment<Comm>)> = btree_from_pairs(tv__);
+        proof {
+            let nn = min(min(ps0.len(), sts0.len()), cs0.len());
+            assert(tv__@.len() == nn);
+            assert forall|i: int| #[trigger] t_is_last(ps0.subrange(0, nn as int), i) implies label_map@[&ps0[i].label] == (ps0[i], sts0[i], cs0[i]) by {
+                assert(tv__@[i].0 == &ps0[i].label);
+                assert forall|j: int| i < j < tv__@.len() implies tv__@[j].0 != tv__@[i].0 by { assert(*tv__@[j].0 == ps0.subrange(0, nn as int)[j].label); }
+            }
+            assert forall|k: &String| label_map@.dom().contains(k) == (exists|i: int| 0 <= i < nn && (#[trigger] ps0[i]).label == *k) by {
+                if label_map@.dom().contains(k) { let i = choose|i: int| 0 <= i < tv__@.len() && (#[trigger] tv__@[i]).0 == k; assert(ps0[i].label == *k); }
+                if exists|i: int| 0 <= i < nn && (#[trigger] ps0[i]).label == *k { let i = choose|i: int| 0 <= i < nn && (#[trigger] ps0[i]).label == *k; assert(tv__@[i].0 == k); }
+            }
+            assert(tmap_ok(label_map@, ps0, sts0, cs0));
+        }
+//@closure |((p, s), c)| => |t: ((&'a LabeledPolynomial, &'a St), &'a LabeledCommitment<Comm>)| -> (kv: (&String, (&LabeledPolynomial, &St, &LabeledCommitment<Comm>))) ensures *kv.0 == t.0.0.label, kv.1 == (t.0.0, t.0.1, t.1) ;; let ((p, s), c) = t;
+//@rw 1 /let mut lc_polynomials = Vec::new\(\);/ => let mut lc_polynomials: Vec<LabeledPolynomial> = Vec::new();
+//@rw 1 /let mut lc_states = Vec::new\(\);/ => let mut lc_states: Vec<St> = Vec::new();
+//@rw 1 /let mut lc_commitments = Vec::new\(\);/ => let mut lc_commitments: Vec<G1> = Vec::new();
+//@rw 1 /let mut lc_info = Vec::new\(\);/ => let mut lc_info: Vec<(String, Option<usize>)> = Vec::new();
+//@rw 1 /for lc in([^{]*?)linear_combinations([^{]*)\{/ => for lc__r in\1linear_combinations.iter()\2{ let lc: &LinearCombination = *lc__r;
+//@rw 1 /let lc_label = lc\.label\(\)\.clone\(\);/ => let lc_label = string_to_string(lc.label());
+//@rw 1 /lc_label\.clone\(\)/ => string_to_string(&lc_label)
+//@rw 1 /let mut poly = P::zero\(\);/ => let mut poly = Poly::zero();
+//@rw 1 /let mut degree_bound = None;/ => let mut degree_bound: Option<usize> = None;
+//@rw 1 /let mut hiding_bound = None;/ => let mut hiding_bound: Option<usize> = None;
+//@rw 1 /let mut state = Self::CommitmentState::empty\(\);/ => let mut state = St::empty();
+//@rw 1 /for \(coeff, label\) in([^{]*?)lc\.iter\(\)\.filter\(\|\(_, l\)\| (.*?)\)((?:\s|\d+)*)\{/ => for ct__ in\1lc.terms.iter()\3{ let coeff: &Fr = &ct__.0; let label: &LCTerm = &ct__.1; let l: &LCTerm = label; let ghost j = it2.index@; proof { assert(*ct__ == ts[j]); } if \2 {
+//@rw 1 /\.expect\("[^"]*"\)/ => .unwrap()
+//@rw 1 /(?s)let &\(cur_poly, cur_state, curr_comm\) =\s*label_map\.get\(label\)(.*?)\?;/ => let t3__: (&LabeledPolynomial, &St, &LabeledCommitment<Comm>) = *(tmap_get(&label_map, label)\1?); let cur_poly = t3__.0; let cur_state = t3__.1; let curr_comm = t3__.2;
+//@rw * /label\.to_string\(\)/ => string_to_string(label)
+//@rw 1 /core::cmp::max\(/ => opt_usize_max(
+//@rw 1 /state \+= \((.*)\);/ => state.add_assign_scaled((\1));
+//@rw 1 /\.map\(\|c\| kzg10::Commitment::<E>\(c\)\)/ => .map(|c: G1Affine| -> (o: Commitment) ensures o.0 == c { kzg10::Commitment(c) })
+//@rw 1 /\.map\(\|\(\(label, d\), c\)\| LabeledCommitment::new\(label, c, d\)\)/ => .map(|t__: ((String, Option<usize>), Commitment)| -> (o: LabeledCommitment<Commitment>) ensures o.label == t__.0.0, o.commitment == t__.1, o.degree_bound == t__.0.1 { let ((label, d), c) = t__; LabeledCommitment::new(label, c, d) })
+//@rw 1 /(?s)Self::batch_open\(\s*ck,\s*lc_polynomials\.iter\(\),\s*lc_commitments\.iter\(\),\s*&query_set,\s*sponge,\s*lc_states\.iter\(\),\s*rng,\s*\)/ => pc_batch_open(ck, &lc_polynomials, &lc_commitments, query_set, sponge, &lc_states, rng)
+//@before /let comms: Vec<Self::Commitment> = /
+        let ghost lc_comms0 = lc_commitments@; let ghost lc_info0 = lc_info@;
+//@after start
+        let ghost ps0 = polynomials@; let ghost cs0 = commitments@; let ghost sts0 = states@; let ghost lcs0 = linear_combinations@;
+        let ghost s0 = sponge.st@; let ghost rin = rng_in(rng);
+//@loop 1 kw=for name=it
+            invariant it.index@ <= lcs0.len(), lc_info@.len() == it.index@, lc_commitments@.len() == it.index@, lc_polynomials@.len() == it.index@, lc_states@.len() == it.index@,
+                sponge.st@ == s0, rng_in(rng) == rin, tmap_ok(label_map@, ps0, sts0, cs0),
+                p_all_ok(label_map@, lcs0, it.index@ as nat),
+                forall|q: int| 0 <= q < lc_info@.len() ==> lc_opened(label_map@, #[trigger] lcs0[q], lc_polynomials@[q], lc_states@[q], (lc_info@[q].0, lc_commitments@[q]@, lc_info@[q].1)),
+//@loopstart 1
+            let ghost i = it.index@;
+            let ghost ts = lc.terms@;
+            let ghost mm = label_map@;
+            proof { assert(lc == lcs0[i]); }
+//@beforeloop 2
+            proof { }
+//@loop 2 kw=for name=it2
+                invariant it2.index@ <= ts.len(), ts == lc.terms@, lc == lcs0[i], num_polys == ts.len(), lc_label == lc.label, mm == label_map@,
+                    p_ok(mm, ts, it2.index@ as nat),
+                    forall|x: FS| #[trigger] poly.ev(x) == p_ev(mm, ts, it2.index@ as nat, x),
+                    state == p_st(mm, ts, it2.index@ as nat), comm@ == p_cm(mm, ts, it2.index@ as nat),
+                    degree_bound == p_db(mm, ts, it2.index@ as nat), hiding_bound == p_hb(mm, ts, it2.index@ as nat),
+//@before /let &\(cur_poly, cur_state, cur_comm\) =/
+                let ghost poly0 = poly;
+                proof {
+                    if !mm.dom().contains(label) {
+                        assert(!p_ok(mm, ts, (j + 1) as nat));
+                        lemma_p_ok_false(mm, ts, (j + 1) as nat, ts.len());
+                        lemma_p_all_false(mm, lcs0, (i + 1) as nat, lcs0.len());
+                    }
+                }
+//@before /return Err\((Self::)?Error::EquationHasDegreeBounds\(lc_label\)\);/
+                    proof {
+                        assert(!p_ok(mm, ts, (j + 1) as nat));
+                        lemma_p_ok_false(mm, ts, (j + 1) as nat, ts.len());
+                        lemma_p_all_false(mm, lcs0, (i + 1) as nat, lcs0.len());
+                    }
+//@after /comm \+= &curr_comm\.commitment\(\)\.0\.mul\(\*coeff\);/
+                proof {
+                    assert forall|x: FS| #[trigger] poly.ev(x) == p_ev(mm, ts, (j + 1) as nat, x) by { assert(poly0.ev(x) == p_ev(mm, ts, j as nat, x)); }
+                }
+//@loopend 2
+                }
+                proof {
+                    match ts[j].1 { LCTerm::One => { assert(p_ok(mm, ts, (j + 1) as nat)); }, LCTerm::PolyLabel(l) => {} }
+                }
+//@afterloop 2
+            let ghost info0 = lc_info@; let ghost cms0 = lc_commitments@; let ghost lp0 = lc_polynomials@; let ghost ls0 = lc_states@;
+//@loopend 1
+            proof {
+                assert forall|q: int| 0 <= q < lc_info@.len() implies lc_opened(mm, #[trigger] lcs0[q], lc_polynomials@[q], lc_states@[q], (lc_info@[q].0, lc_commitments@[q]@, lc_info@[q].1)) by {
+                    if q < i { assert(lc_info@[q] == info0[q] && lc_commitments@[q] == cms0[q] && lc_polynomials@[q] == lp0[q] && lc_states@[q] == ls0[q]); }
+                }
+            }
+//@before /let proof = Self::batch_open\(/
+        proof {
+            assert(lcvs(lc_commitments@) =~= outs(lc_info0, lc_comms0));
+            assert forall|q: int| 0 <= q < lcs0.len() implies lc_opened(label_map@, #[trigger] lcs0[q], lc_polynomials@[q], lc_states@[q], lcvs(lc_commitments@)[q]) by { }
         }
 //@end
 }
